@@ -79,6 +79,10 @@ func config(name string) pmc.Cfg {
 		c.C = kit.WeightedCommittee(7, 1, 1, 1)
 	case "K10b": // the same with the three light members silent
 		c.C, c.Silent = kit.WeightedCommittee(7, 1, 1, 1), []int{1, 2, 3}
+	case "K10x": // weights 7,1,1,1, a light member Byzantine, and every commit callback FAILS: the heavy member decides alone but stays in its height
+		c.C, c.Byz, c.CommitFails = kit.WeightedCommittee(7, 1, 1, 1), []int{1}, true
+	case "K1x": // 4 equal, Byzantine leader of view 1, every commit callback fails
+		c.C, c.Byz, c.CommitFails = kit.EqualCommittee(4), []int{1}, true
 	case "K7": // 7 equal, two Byzantine members (leaders of views 0 and 1)
 		c.C, c.Byz = kit.EqualCommittee(7), []int{0, 1}
 	default:
@@ -119,6 +123,7 @@ var menus = map[string]string{
 	"MZ":   "PC PP0 NV NVM NVB VC",
 	"MNC":  "PC PP0 NC", // + the adversary's own messages signed over a non-canonical encoding of the header
 	"ME":   "NVE",
+	"MX":   "PC PX", // + PREPARE / COMMIT for a hash nobody proposed
 	"MT":   "PC NVT", // NEW_VIEW of a Byzantine leader whose embedded proposal declares another message type
 	"MB":   "PC NVB",           // NEW_VIEWs of a Byzantine leader, genuine in every signed part, with and without a substituted block body
 	"MZE":  "PC PP0 NV NVE VC", // + NEW_VIEW / vote locked on an empty-hash proof forged from proof-less VIEW_CHANGE signatures
@@ -173,6 +178,10 @@ func plan(prop, tier string) []run {
 		// blocks (stand-alone and inside NEW_VIEW) must never crash a node later on
 		for _, c := range []string{"K1@v1s", "K2@v1s", "K3b@v1s"} {
 			r = append(r, run{cfg: c, menu: "MN", prims: menus["MN"], budget: 20 * time.Second, maxV: 1})
+		}
+		// consumers whose commit callback fails: the node stays in the height it decided and keeps handling messages and timeouts there
+		for _, c := range []string{"K10x@v2", "K1x@v1"} {
+			r = append(r, run{cfg: c, menu: "MX", prims: menus["MX"], budget: 20 * time.Second, maxV: 2})
 		}
 		return r
 	}
